@@ -149,7 +149,7 @@ def render_body(p, kind, hk):
     if p.joiner == "Stamp":
         opts = "custom_joiner(%s) " % (("jnta!" if kind.startswith("try_") else "jna!") if asy else "jn!")
     elif p.joiner == "Lazy":
-        opts = "custom_joiner(jnl!) lazy_branches(true) "
+        opts = "custom_joiner(%s) lazy_branches(true) " % (("jntla!" if kind.startswith("try_") else "jnla!") if asy else "jnl!")
     elif p.joiner == "Transposed":
         opts = "custom_joiner(%s) transpose_results(false) " % ("jnta!" if asy else "jnt!")
     # a handler in the middle is followed by a branch: handlers consume an optional comma themselves
@@ -169,7 +169,7 @@ def kinds_for(p, want_async=True):
     if want_async and not p.sync_only():
         ks += ASYNC_KINDS
     if p.joiner == "Lazy":
-        ks = [k for k in ks if k in ("join", "try_join")]
+        ks = [k for k in ks if k in ("join", "try_join", "join_async", "try_join_async")]
     if p.joiner == "Transposed":
         ks = [k for k in ks if k == "try_join" or (k.startswith("try_") and k in ASYNC_KINDS)]
     return ks
